@@ -73,7 +73,7 @@ class Rule(Expression):
         self.doc = tuple(doc) if doc else None
 
     def __str__(self) -> str:
-        doc = "".join(f"///{line}\n" for line in self.doc) if self.doc else ""
+        doc = "".join(f"/// {line}".rstrip() + "\n" for line in self.doc) if self.doc else ""
         modifier = modifier_to_str(self.modifier)
         return f"{doc}{self.name} = {modifier}{{ {self.expression} }}"
 
